@@ -586,12 +586,78 @@ class OutStream(Stream):
         return {"case": case, "code": obs.get("code"), "exception": obs.get("exc"), "target_saw": obs.get("seen"), "async_call_got": obs.get("passed")}
 
 
+# ------------------------------------------------------------------------------------------------
+# stream 3: overlapping calls of one service
+# ------------------------------------------------------------------------------------------------
+class OverlapStream(Stream):
+    name = "overlap"
+    rule = ("2-3 concurrent hass.services.async_call(..., blocking=True, return_response=True) of one service whose function "
+            "computes a local from its data, suspends in task.sleep for a per-call duration and returns a value computed from "
+            "the local and the data; start times and durations chosen so that calls are nested, sequential and - most cases - "
+            "resumed in non-nested order (an earlier call resumes while a later one is still suspended); supports_response "
+            "optional/only; both subsystems; non-trivial = at least two calls suspended at the same time")
+    requires = "From PV Require Import Life.Services Life.ServicesCheck."
+    case_type = "vcase"
+    check_model = "vcase_model_ok"
+    check_spec = "vcase_spec_ok"
+    explain = "vcase_explain"
+    shard_size = 200
+
+    def budget(self, tier):
+        return 60 if tier == "quick" else 600
+
+    def generate(self, ctx, budget, focus=None):
+        rng = ctx.rng
+        cases = []
+        for legacy in (False, True):
+            for sr in ("optional", "only"):
+                # non-nested resume order, nested, sequential, three-way
+                cases.append({"legacy": legacy, "sr": sr, "calls": [{"a": 10, "start": 0, "dur": 2}, {"a": 500, "start": 1, "dur": 3}]})
+                cases.append({"legacy": legacy, "sr": sr, "calls": [{"a": 10, "start": 0, "dur": 4}, {"a": 500, "start": 1, "dur": 1}]})
+                cases.append({"legacy": legacy, "sr": sr, "calls": [{"a": 10, "start": 0, "dur": 1}, {"a": 500, "start": 2, "dur": 1}]})
+                cases.append({"legacy": legacy, "sr": sr, "calls": [{"a": 3, "start": 0, "dur": 3}, {"a": 40, "start": 1, "dur": 4}, {"a": 7, "start": 2, "dur": 1}]})
+        while len(cases) < budget:
+            n = rng.choice([2, 2, 3])
+            calls = [{"a": rng.randint(-20, 900), "start": rng.randint(0, 3), "dur": rng.randint(1, 6)} for _ in range(n)]
+            cases.append({"legacy": rng.random() < 0.4, "sr": rng.choice(["optional", "only"]), "calls": calls})
+        return cases
+
+    def run_impl(self, ctx, cases):
+        chunks = split_chunks(cases, 6)
+        res = run_workers_parallel(ctx, "vh.workers.c12_services", [{"op": "ov", "cases": c} for c in chunks], timeout=900)
+        return [o for r in res for o in r]
+
+    def to_coq(self, case, obs):
+        # observations come back in start order; match them to the case's calls by position after the same sort
+        order = sorted(range(len(case["calls"])), key=lambda i: case["calls"][i]["start"])
+        calls = []
+        for pos, i in enumerate(order):
+            c, o = case["calls"][i], obs["calls"][pos]
+            ret = f"(Some ({q.Z(o['res'])}, {q.Z(o['a1'])}))" if o["k"] == "ret" and isinstance(o.get("res"), int) and isinstance(o.get("a1"), int) else "None"
+            calls.append(f"(mk_vcall {q.Z(c['a'])} {q.N(c['start'])} {q.N(c['dur'])} {ret})")
+        fired = [f"({q.Z(a if isinstance(a, int) else -99999)}, {q.Z(r if isinstance(r, int) else -99999)}, {q.boolean(t == 0)})" for a, r, t in obs["fired"]]
+        return f"(mk_vcase {q.lst(calls)} {q.lst(fired)})"
+
+    def nontrivial(self, case, obs):
+        cs = case["calls"]
+        return any(a is not b and a["start"] < b["start"] + b["dur"] and b["start"] < a["start"] + a["dur"] for a in cs for b in cs)
+
+    def kind(self, case, obs):
+        cs = sorted(case["calls"], key=lambda c: c["start"])
+        ends = [c["start"] + c["dur"] for c in cs]
+        shape = "non-nested" if any(cs[i]["start"] < cs[j]["start"] < ends[i] < ends[j] for i in range(len(cs)) for j in range(len(cs)) if i != j) else "nested-or-sequential"
+        return f"{'legacy' if case['legacy'] else 'new'}/{len(cs)}calls/{shape}"
+
+    def describe(self, case, obs):
+        return {"case": case, "observed": obs}
+
+
 class C12(Prop):
     id = "C12"
     title = "A @service exists exactly while declared and calls the current definition"
     coq_targets = ["Properties/C12.vo"]
     property_file = "Properties/C12.v"
-    streams = [LifeStream(), OutStream()]
+    streams = [LifeStream(), OutStream(), OverlapStream()]
     trusted_base = [
         "modelled, not verified: Function.service_register/service_remove (Life/Services.v register/remove, constants from "
         "Gen/ServiceConsts.v), the service part of EvalFunc.trigger_init/trigger_stop, EvalFuncVar.__del__, ast_functiondef's "
